@@ -34,8 +34,17 @@ package preamble
 // A successful rewrite leaves exactly the bytes json.Marshal returned for the filtered state in the preamble file, and
 // durably so: no remnant of the previous preamble and no padding, wherever the handle was positioned before.
 // ($lastjson: the bytes returned by the last json.Marshal call - the encoder is outside the proof.)
-//@ func (*Store).CreatePreamble props C09,C02
-//@   requires store.rw != nil
+// The state copy the server installs (sugardb.getState) hands over a copy and writes no file.
+//@ fieldspec preamble.Store.getStateFunc props C09
+//@   ensures forall d int :: has(result, d) ==> result[d] != nil
+//@   modifies nothing
+
+//@ func (*Store).CreatePreamble props C09,C02,C05
+//@   requires store.rw != nil && store.clock != nil && unlocked(store.mut)
 //@   assumes notappend: !$fappend[ref(store.rw)]
+//@   assert @Truncate#0 {C05,C09} locked: holds(store.mut)
+//@   assert @Write#0 {C05,C09} locked-write: holds(store.mut)
 //@   ensures {C09,C02} whole: result == nil ==> $fcontent[ref(store.rw)] == $lastjson && $fdurable[ref(store.rw)] == $lastjson
-//@   modifies *
+//@   ensures {C09} otherfiles: forall r Ref :: r != ref(store.rw) ==> $fcontent[r] == old($fcontent[r]) && $fdurable[r] == old($fdurable[r])
+//@   ensures {C05} released: sameLocks()
+//@   modifies $fcontent, $fpos, $fdurable, $lastjson, $lock, heap:Mdom_string_internal_KeyData, heap:Mval_string_internal_KeyData, heap:Mcard_string_internal_KeyData
